@@ -974,9 +974,18 @@ def rule_cache_operand_agreement(db: ProgramDB) -> List[Instance]:
             if not m.is_generator:
                 continue
             for call in own_calls(m):
-                if call_attr(call) != "update_cache" or len(call.args) < 2:
+                if call_attr(call) != "update_cache":
                     continue
-                cexpr = call.args[1]
+                callee = c.lookup("update_cache")
+                from ..facts import bind_args, fn_params
+                try:
+                    amap = bind_args(fn_params(callee), call) if callee is not None else {}
+                except AnalysisError:
+                    amap = {}
+                cexpr = amap.get("cache")
+                row_expr = amap.get("values", call.args[0] if call.args else None)
+                if cexpr is None or row_expr is None:
+                    continue
                 if not (isinstance(cexpr, ast.Attribute) and isinstance(cexpr.value, ast.Name) and cexpr.value.id == "self"
                         and cexpr.attr.endswith("_cache") and cexpr.attr.split("_")[0] in ("left", "right")):
                     continue
@@ -990,10 +999,10 @@ def rule_cache_operand_agreement(db: ProgramDB) -> List[Instance]:
                                     f"rows are stored into self.{cexpr.attr} outside any loop over the rows of self.{side}", line=call.lineno))
                     continue
                 tn = {x.id for x in ast.walk(mine[-1].target) if isinstance(x, ast.Name)}
-                ok = isinstance(call.args[0], ast.Name) and call.args[0].id in tn
+                ok = isinstance(row_expr, ast.Name) and row_expr.id in tn
                 out.append(inst("CACHE-OPERAND-AGREEMENT", HOLDS if ok else VIOLATION, m, f"{m.short}[{unparse(call)[:50]}]",
                                 f"the row of self.{side} is what is stored in self.{cexpr.attr}" if ok else
-                                f"`{unparse(call)}` stores `{unparse(call.args[0])}`, not the row `{', '.join(sorted(tn))}` of self.{side}, in the cache "
+                                f"`{unparse(call)}` stores `{unparse(row_expr)}`, not the row `{', '.join(sorted(tn))}` of self.{side}, in the cache "
                                 f"of the {side} operand: the stored binding does not bind that operand's variables, so it covers every later "
                                 f"lookup and replays rows with those variables unbound", line=call.lineno))
     if n == 0:
